@@ -1081,6 +1081,28 @@ class CxxHarness:
             crash = classify(err, rc, state == "timeout", self.header_name, valgrind=valgrind)
             if state == "oom":
                 crash["kind"] = "oom"
+            if crash.get("kind") == "timeout" and stdin_lines is not None and open_k < n and not getattr(self, "_in_retry", False):
+                # a deadline that passes on a loaded machine is not yet a hang: the entry is run once
+                # more, alone, with a deadline six times longer
+                self._in_retry = True
+                try:
+                    fd2, sp2 = tempfile.mkstemp(dir=self.dir, prefix="in1-", suffix=".txt")
+                    with os.fdopen(fd2, "w") as f2:
+                        f2.write(stdin_lines[open_k])
+                    try:
+                        res2, open2, state2, rc2, err2 = self._stream([binp, mode, str(open_k)], sp2, self._env(leak_each),
+                                                                      timeout * 6, startup=60.0)
+                    finally:
+                        os.unlink(sp2)
+                finally:
+                    self._in_retry = False
+                if open_k in res2:
+                    out[open_k] = res2[open_k]
+                    self.slow_retries = getattr(self, "slow_retries", 0) + 1
+                    start = open_k + 1
+                    continue
+                crash = classify(err2, rc2, state2 == "timeout", self.header_name, valgrind=valgrind)
+                crash["confirmed_alone"] = True
             if open_k < n:
                 out[open_k] = {"crash": crash}
             start = open_k + 1
